@@ -41,10 +41,13 @@ func (m *Mutex) TryLock() bool {
 	if getCur() == nil {
 		return m.real.TryLock()
 	}
-	// a TryLock is a Lock that is attempted only when it would succeed now;
-	// the simulator decides by a choice whether the attempt is made while
-	// the mutex is free. Not used by the code under test today.
-	panic("simsync: Mutex.TryLock is not modelled")
+	v := rpc(req{k: kTryLock, p: unsafe.Pointer(m)})
+	if v.abort || v.n == 0 {
+		return false
+	}
+	getCur().lastAcq = v.seq
+	raceAcquire(unsafe.Pointer(&m.sem))
+	return true
 }
 
 func (m *Mutex) Unlock() {
@@ -111,8 +114,32 @@ func (rw *RWMutex) Unlock() {
 	rpc(req{k: kRWUnlock, p: unsafe.Pointer(rw)})
 }
 
-func (rw *RWMutex) TryLock() bool  { panic("simsync: RWMutex.TryLock is not modelled") }
-func (rw *RWMutex) TryRLock() bool { panic("simsync: RWMutex.TryRLock is not modelled") }
+func (rw *RWMutex) TryLock() bool {
+	if getCur() == nil {
+		return rw.real.TryLock()
+	}
+	v := rpc(req{k: kTryLock, p: unsafe.Pointer(rw)})
+	if v.abort || v.n == 0 {
+		return false
+	}
+	getCur().lastAcq = v.seq
+	raceAcquire(unsafe.Pointer(&rw.readerSem))
+	raceAcquire(unsafe.Pointer(&rw.writerSem))
+	return true
+}
+
+func (rw *RWMutex) TryRLock() bool {
+	if getCur() == nil {
+		return rw.real.TryRLock()
+	}
+	v := rpc(req{k: kTryRLock, p: unsafe.Pointer(rw)})
+	if v.abort || v.n == 0 {
+		return false
+	}
+	getCur().lastAcq = v.seq
+	raceAcquire(unsafe.Pointer(&rw.readerSem))
+	return true
+}
 
 type rlocker RWMutex
 
@@ -149,6 +176,81 @@ func (o *Once) Do(f func()) {
 		rpc(req{k: kOnceDone, p: unsafe.Pointer(o)})
 	}()
 	f()
+}
+
+// OnceFunc, OnceValue and OnceValues as in package sync (Go 1.21), on top of the simulated Once.
+func OnceFunc(f func()) func() {
+	var once Once
+	var valid bool
+	var p interface{}
+	g := func() {
+		defer func() {
+			p = recover()
+			if !valid {
+				panic(p)
+			}
+		}()
+		f()
+		f = nil
+		valid = true
+	}
+	return func() {
+		once.Do(g)
+		if !valid {
+			panic(p)
+		}
+	}
+}
+
+func OnceValue[T any](f func() T) func() T {
+	var once Once
+	var valid bool
+	var p interface{}
+	var result T
+	g := func() {
+		defer func() {
+			p = recover()
+			if !valid {
+				panic(p)
+			}
+		}()
+		result = f()
+		f = nil
+		valid = true
+	}
+	return func() T {
+		once.Do(g)
+		if !valid {
+			panic(p)
+		}
+		return result
+	}
+}
+
+func OnceValues[T1, T2 any](f func() (T1, T2)) func() (T1, T2) {
+	var once Once
+	var valid bool
+	var p interface{}
+	var r1 T1
+	var r2 T2
+	g := func() {
+		defer func() {
+			p = recover()
+			if !valid {
+				panic(p)
+			}
+		}()
+		r1, r2 = f()
+		f = nil
+		valid = true
+	}
+	return func() (T1, T2) {
+		once.Do(g)
+		if !valid {
+			panic(p)
+		}
+		return r1, r2
+	}
 }
 
 // ---------------------------------------------------------------- Pool
